@@ -4,7 +4,9 @@ use super::core::{
     NamedObject, Operand, Rvalue, Statement, Terminator, Void,
 };
 use crate::diagnostic::Diagnostics;
-use crate::opcode::{BinaryArithOp, BinaryLogicalOp, BinaryOp, BuiltinFunctionKind, UnaryOp};
+use crate::opcode::{
+    BinaryArithOp, BinaryLogicalOp, BinaryOp, BuiltinFunctionKind, ComparisonOp, UnaryOp,
+};
 use crate::qmlast::StatementNode;
 use crate::typedexpr::{
     self, DescribeType, ExpressionError, ExpressionVisitor, RefSpace, TypeAnnotationSpace, TypeDesc,
@@ -745,6 +747,18 @@ impl<'a> CodeBuilder<'a> {
             BinaryOp::Comparison(op) => {
                 let ty = deduce_concrete_type(op, left.type_desc(), right.type_desc())?;
                 match &ty {
+                    // nullptr can't be compared by relational operators in C++
+                    TypeKind::Pointer(_)
+                        if !matches!(op, ComparisonOp::Equal | ComparisonOp::NotEqual)
+                            && (left.type_desc() == TypeDesc::NullPointer
+                                || right.type_desc() == TypeDesc::NullPointer) =>
+                    {
+                        Err(ExpressionError::OperationOnUnsupportedTypes(
+                            op.to_string(),
+                            left.type_desc(),
+                            right.type_desc(),
+                        ))
+                    }
                     &TypeKind::BOOL
                     | &TypeKind::INT
                     | &TypeKind::UINT
